@@ -370,9 +370,9 @@ func runCheck(repo, verifDir, prop, tier string) int {
 			e.selfIface = t.selfIface
 			e.exemptNext = t.exempt
 			safety := cr.safety
-			if cr.prop == "C17" && !(strings.Contains(t.fn.Name(), "InitGenesis") || strings.Contains(t.fn.Name(), "Validate") || strings.HasPrefix(t.fn.Name(), "SetPaused") || strings.HasPrefix(t.fn.Name(), "SetDispatched") || t.fn.Name() == "SetParams") {
-				// C17 claims panic freedom for validation and initialisation (the module panics on an init error);
-				// the export functions are proved functionally only
+			if cr.prop == "C17" && !(strings.Contains(t.fn.Name(), "InitGenesis") || strings.Contains(t.fn.Name(), "Validate") || strings.HasPrefix(t.fn.Name(), "SetPaused") || strings.HasPrefix(t.fn.Name(), "SetDispatched") || t.fn.Name() == "SetParams" || exportSafety(t.fn.Name())) {
+				// C17 claims panic freedom for validation, initialisation (the module panics on an init error) and
+				// export; everything else in the slice is proved functionally only
 				safety = false
 			}
 			if cr.prop == "C11" && !(t.fn.Name() == "clearOrbiterBalance" || t.fn.Name() == "BeforeTransferHook" || t.fn.Name() == "validateInitialConditions" ||
@@ -770,4 +770,10 @@ func (cr *checkRun) assumptions(trusted, havocked []string) []string {
 		out = append(out, "trusted specs are not re-tested in the quick tier (./conform and the thorough tier test those of plain-value functions against the real code)")
 	}
 	return out
+}
+
+// exportSafety: the export side of C17 - panic freedom is claimed there as well (the module's ExportGenesis runs in
+// the export command and in upgrades; a panic there loses the export)
+func exportSafety(name string) bool {
+	return strings.Contains(name, "ExportGenesis") || strings.HasPrefix(name, "GetAll") || strings.HasPrefix(name, "GetPaused")
 }
